@@ -364,7 +364,37 @@ class StoreJudge:
                               f"available items and only {len(self.granted('get'))} granted retrievals")
 
 
+def judge_prq_trace(header, ops, lines):
+    """PriorityReqStore: a request is triggered only if no request of the same side with a better
+    (priority, arrival) key is waiting; gets return items in put-acceptance order is not claimed."""
+    viol = []
+    waiting = {}      # id -> (side, prio)
+    cap = int(header.split()[2])
+    for ln, (op, line) in enumerate(zip(ops, lines)):
+        if line.startswith("err"):
+            continue
+        parts = [p.strip() for p in line.split("|")]
+        rid = int(parts[0].split()[1])
+        if op[0] == "pput": waiting[rid] = ("put", op[1])
+        elif op[0] == "pget": waiting[rid] = ("get", op[1])
+        elif op[0] == "cancel": waiting.pop(op[1], None)
+        for f in parts[1].split():
+            i = int(f.split(":")[0])
+            if i not in waiting:
+                viol.append(("C05", ln, "order-or-fire", f"request {i} triggered while not waiting")); continue
+            side, pr = waiting[i]
+            for w, (sd, p2) in waiting.items():
+                if w != i and sd == side and (p2, w) < (pr, i):
+                    viol.append(("C05", ln, "order", f"{side} request {i} (prio {pr}) served while request {w} (prio {p2}) of the same side was still waiting"))
+                    break
+            del waiting[i]
+        if int(parts[2]) > cap:
+            viol.append(("C01", ln, "cap-exceeded", f"{parts[2]} items in a PriorityReqStore of capacity {cap}"))
+    return viol
+
 def judge_store_trace(header, ops, lines):
+    if header.split()[1] == "prq":
+        return judge_prq_trace(header, ops, lines)
     j = StoreJudge(header)
     for op, line in zip(ops, lines):
         j.feed(op, line)
